@@ -421,3 +421,7 @@ MANIFEST_ENTRY = dict(
     note='BBOX coverages in the grid SRS only; small pyramids; completeness conditioned on overlaps > 0.2 px of the coarsest traversed level (the '
          'unconditioned obligation is the listed finding).',
 )
+
+# --- manifest text refreshed after rounds 6-8 (obligations added since the entry above was written)
+MANIFEST_ENTRY['text'] = MANIFEST_ENTRY['text'] + ' Level selection of a seed task (levels list / from-to range) keeps exactly the chosen grid levels (CrossHair); the progress key distinguishes tasks.'
+META['bounds'] = META.get('bounds', '') + '; level selection: lists of <= 3 levels, grids of <= 8 levels (CrossHair)'
